@@ -229,6 +229,12 @@ def level_source(ctx):
         ctx.inst('V7', 'LayerData.child_level', ok, 'child_level = %s; must be the WORD read from the layer chunk without a narrowing cast' % show(cl)[:100],
                  st.get('span'), key=b.name + '|V7|child_level')
     ctx.floor('LayerData constructions in layer::parse_chunk', n, 1)
+    # the visible flag the chain test reads is bit 0 of the file's flags WORD, stored as read: the whole LAYER chunk against the spec
+    # layout, every stored field with a single value-preserving origin (seed C09-j replaced unknown flag words by a default "visible")
+    import spec as _SP
+    _spec = _SP.load_spec()
+    _bnd, _ = layout.check_layout(ctx, _spec, LY + 'parse_chunk', 'LAYER', rule='V7')
+    layout.check_stores(ctx, _spec, LY + 'parse_chunk', 'LAYER', _bnd, rule='V7')
 
 
 def layer_cap(ctx):
